@@ -77,6 +77,15 @@ Mutants of /repo tried (scratch git worktree + VERIF_REPO, quick tier, seed 0) a
   M14 chunk loop reads a full chunk past the tensor end       oracle replay (BytesIO destination, data followed by other bytes)
   M15 serialize_tensor_into writes numpy().tobytes()           oracle replay (sub-byte dtypes) + third voice
   M16 nbytes floor instead of ceil                             generation fails closed + oracle-nbytes / oracle replays
+Seeded changes missed by the first version and now caught with concrete replays (tools/seed_eval.py):
+  C04-m2  TorchTensor._get_cbytes reads from untyped_storage().data_ptr()   -> torch views with a storage offset were
+          never generated; added view_tail / view_narrow / view_row (0-d element) / view_split / view_strided /
+          view_t_offset (RTorch store = logical elements of the view), plus offset views for ndarray and PackedTensor
+  C04-m3  _load maps the file from the allocation block, tobytes() slices with the absolute offset -> offsets were all
+          small; added external data at 4095/4096/4097/8192/12289 (all dtypes, all 6 accessor orders at 4096) and
+          65535/65536/65537/135168 (4 dtypes per quick run, all in thorough), at end of file or not, through
+          ExternalTensor / deserialize_tensor / LazyTensor; every well-formed case now calls numpy/tobytes/tofile on
+          ONE object in one of 6 orders (spec["order"]).  Long prefixes are named by a pattern (Tie.pat) in case files.
 Unchanged tree: no VIOLATION for VERIF_SEED 0..3 (only KNOWN-FINDING string-trailing-nul).
 
 Shared-helper notes for the orchestrator: case files are compiled with at most 4 coqc in parallel (own pool instead of
